@@ -288,13 +288,16 @@ def judge_proxy(ctx: Ctx, cases, kind="pfix"):
 # the committed models must pass; the model of the code as pinned and three hand-broken variants must fail
 MODELS = [("MCHostTrust", "MCH_quick", None), ("MCDebugger", "MCD_fixed", None), ("MCProxyFix", "MCP_quick", None)]
 MODELS_THOROUGH = [("MCHostTrust", "MCH_thorough", None), ("MCHostTrust", "MCH_lists2", None), ("MCHostTrust", "MCH_big", None),
-                   ("MCProxyFix", "MCP_full", None)]
+                   ("MCProxyFix", "MCP_full", None), ("MCProxyFix", "MCP_ignored", None)]
 BROKEN = [("MCHostTrust", "MCH_orig", "ImplMeetsContract"),   # host_is_trusted as pinned (F14, F15)
           ("MCDebugger", "MCD_orig", "LockoutSticks"),        # the byte counter wraps (F40)
           ("MCDebugger", "MCD_mut_nohost", "ContractHolds"),
           ("MCDebugger", "MCD_mut_nosecret", "ContractHolds"),
           ("MCDebugger", "MCD_mut_nopin", "ContractHolds"),
-          ("MCProxyFix", "MCP_left", "ExtraLeftIrrelevant")]        # a table that counts from the left (client side)
+          ("MCProxyFix", "MCP_left", "ExtraLeftIrrelevant"),        # a table that counts from the left (client side)
+          # the list parsing before repo fix 2d7315b (quoted strings): a client quote merges the proxies' values
+          ("MCProxyFix", "MCP_pinned", "ExtraLeftSameVerdict"),
+          ("MCProxyFix", "MCP_pinned_for", "QuoteExample")]
 
 
 def model_checks(ctx: Ctx):
@@ -339,8 +342,9 @@ def run(ctx: Ctx):
         "letter-case variants, IDNA-equivalent spellings, a trailing dot, non-numeric port text, lists with a malformed entry: either verdict is accepted",
         "the debugger is driven in-process as a WSGI callable; time.time/time.sleep inside werkzeug.debug are replaced by a frozen clock; "
         "a 'process restart' is a new DebuggedApplication",
-        "ProxyFix: header lists without quoted strings in the judged case (quotes/backslashes only in the client-prepended twin values, "
-        "where a changed outcome is reported as drift); SERVER_PORT texts are canonical numbers or non-numbers; which value lands in which "
+        "ProxyFix: header lists without quoted strings in the judged case (quotes/backslashes in the client-prepended twin values); "
+        "every Proxy* verdict is taken under both documented readings of empty list elements (counted / ignored), a code/table "
+        "disagreement on that alone is drift; SERVER_PORT texts are canonical numbers or non-numbers; which value lands in which "
         "environ key, URL texts and access_route are compared with the documented table as drift only",
         "bounded models: hosts of <= 2..3 labels from 7 representative labels x 4 port forms + 6 literal forms, lists of <= 2 of 12 entries; "
         "debugger: the product of 6 commands x 3 secrets x 3 host verdicts x 5 cookies x 3 frames x 2 PINs from every counter value 0..255",
